@@ -241,7 +241,7 @@ pub fn scenario<C: Coll>(c: &mut Ctx, idx: u64, rng: &mut Rng, name: &str) {
         let ids = absent_ids(&col, room.min(if spec.plan.is_clustering() { 400 } else { 20_000 }), rng);
         // through insert, or through Extend from an iterator with any lawful size hint (exact, loose upper bound, none)
         let n = ids.len();
-        let route = rng.below(7);
+        let route = rng.below(8);
         let (lo, hi): (usize, Option<usize>) = match route {
             1 => (n, Some(n)),
             2 => (0, Some(n)),
@@ -256,6 +256,9 @@ pub fn scenario<C: Coll>(c: &mut Ctx, idx: u64, rng: &mut Rng, name: &str) {
             for (i, id) in ids.iter().enumerate() {
                 col.put(*id, 900u16.wrapping_add(i as u16));
             }
+        } else if route == 7 && C::send_elems() && !crate::util::slow_lane() {
+            col.par_extend_ids(&ids, 902);
+            c.bump("room_fills_through_par_extend");
         } else {
             col.extend_hinted(&ids, 901, lo, hi);
             c.bump("room_fills_through_extend");
@@ -269,6 +272,16 @@ pub fn scenario<C: Coll>(c: &mut Ctx, idx: u64, rng: &mut Rng, name: &str) {
             );
         }
         held("after filling the reported room", &col);
+        // nothing to insert: inserting zero keys allocates nothing either, whatever the state (here: often exactly full)
+        {
+            let (cap0, b0) = (col.capacity(), ckalloc::counters());
+            col.extend_hinted(&[], 1, 0, *rng.pick(&[None, Some(0), Some(1000)]));
+            if C::send_elems() && !crate::util::slow_lane() {
+                col.par_extend_ids(&[], 1);
+            }
+            let b1 = ckalloc::counters();
+            crate::check!(b1.allocs == b0.allocs && b1.deallocs == b0.deallocs && col.capacity() == cap0, "{} [{}]: extending by an empty input (len {}, capacity {} -> {}) allocated", name, spec.describe(), col.len(), cap0, col.capacity());
+        }
         col.validate(name);
         if room > 0 {
             c.bump("room_fills");
